@@ -3,7 +3,7 @@
    - [codebook_ok l] for every l (in particular 1..16 = __M4RI_MAXKAY);
    - [gray_lookup]: after mzd_make_table started from arbitrary stale T0 / uninitialised L0 the
      row found through L for bit pattern x is the xor of exactly the rows selected by x. *)
-From Coq Require Import List NArith Arith Lia Bool Permutation ZifyBool ZifyNat ZifyN.
+From Coq Require Import List NArith ZArith Arith Lia Bool Permutation ZifyBool ZifyNat ZifyN.
 From M4 Require Import Base.Bits Lin.Mat Lin.Ops Alg.Gray.
 Import ListNotations.
 Local Open Scope nat_scope.
@@ -525,7 +525,7 @@ Theorem make_table_spec cb k M r c T0 L0 :
 Proof.
   destruct cb as [ord inc]. intros Hcb Hr HT HL Hz TL. cbn [fst].
   pose proof (pow2_pos k) as Hp.
-  pose proof (mt_inv_fold k ord inc Hcb M r (mt_region M c) (mt_mask M c) T0 L0 Hr HL Hz
+  pose proof (mt_inv_fold k ord inc Hcb M r (mt_region M c) (mt_mask M c) T0 L0 Hr HT HL Hz
                           (mt_mask_incl M c) (2 ^ k - 1) ltac:(lia)) as Hinv.
   fold (make_table_cb (ord, inc) M r c k T0 L0) in Hinv. fold TL in Hinv.
   destruct Hinv as (H1 & H2 & H3 & H4 & H5).
@@ -630,7 +630,7 @@ Theorem make_table_preserves cb k M r T0 L0 w :
   cb_ok k cb -> wf M -> r + k <= nr M -> 2 ^ k <= length T0 -> 2 ^ k <= length L0 ->
   nth 0 T0 0%N = 0%N -> nc M <= w -> Forall (bounded w) T0 ->
   let TL := make_table_cb cb M r 0 k T0 L0 in
-  length (fst TL) = length T0 /\ length (snd TL) = length L0 /  nth 0 (fst TL) 0%N = 0%N /\ Forall (bounded w) (fst TL).
+  length (fst TL) = length T0 /\ length (snd TL) = length L0 /\ nth 0 (fst TL) 0%N = 0%N /\ Forall (bounded w) (fst TL).
 Proof.
   intros Hcb Hwf Hr HT HL Hz Hw Hb TL.
   assert (Hz' : N.land (nth 0 T0 0%N) (mt_mask M 0) = 0%N) by (rewrite Hz; reflexivity).
